@@ -25,6 +25,7 @@ import M4riProofs.GenTie
 import M4riProofs.GenTieRec
 import M4riProofs.GenTieGlue
 import M4riProofs.GenTieClose
+import M4riProofs.GenTieClose6
 namespace M4ri.Props.C04
 open M4ri M4ri.BMat
 
@@ -132,3 +133,13 @@ theorem upper_right_solves {U B : BMat} (hUr : U.nrows = B.ncols) (hUc : U.ncols
 #check @M4ri.GenTieClose.trsmUpperRightRec_callee_congr
 
 end M4ri.Props.C04
+
+/-! ### THE TRSM RECURSIONS OVER THE GENERATED PRODUCT (GenTieClose6.lean): `cTrsmXG` = the generated `_mzd_trsm_*` bound to themselves n levels deep
+    with the product callee bound to the GENERATED public `mzd_addmul` over the closed Strassen recursion (`genAddmul`; every int cut-off, depth,
+    flags, strides) instead of the lifted model product: still the substitution solutions -/
+#check @M4ri.GenTieClose6.genAddmul_agree
+#check @M4ri.GenTieClose6.cTrsmLLG_correct
+#check @M4ri.GenTieClose6.cTrsmULG_correct
+#check @M4ri.GenTieClose6.cTrsmURG_correct
+#check @M4ri.GenTieClose6.cTrsmLRG_correct
+#check @M4ri.GenTieClose6.cTrsmLL_gen_window
